@@ -55,6 +55,10 @@ CLAIMS = {
   "Deductive: the real bodies of validate_global_constraints of OMPParallelDirective, OMPDoDirective (+ _validate_single_loop, _validate_collapse_value with a loop invariant over the nest cursor), OMPParallelDoDirective, OMPSerialDirective, OMPTaskloopDirective, OMPLoopDirective and ACCLoopDirective are verified: returning normally implies the structural rule each guards (no nested parallel regions; do/single/master inside a parallel region; taskloop inside a serial region; omp loop inside target/parallel; one loop with collapse(n) over n perfectly nested loops; acc loop inside a compute region of its routine or in an 'acc routine' routine, without PSyData/CodeBlock). Two known findings (open), both replayed: IndexError on an empty collapsed loop body; OMPLoopDirective does not check that the collapsed nest is perfect.",
   "Assumed: tree queries (ancestor with excluding/limit, walk, dir_body, loop_body) as uninterpreted functions; children lists well-formed (C14). NOT under contract: the transformations' validate methods (ParallelRegionTrans, collapse counting in ParallelLoopTrans), nested omp do / nested acc parallel (no validator exists), compiler acceptance.",
   TECH),
+ "C28": ("proof",
+  "Deductive: PSyDataTrans.get_unique_region_name (generated names end in ':r<n>' with n a per-key counter that is then incremented, other counters untouched: names pairwise distinct; user-supplied names verbatim, counters untouched) and merge_in_default_options (fresh dict, user options win, caller's dict untouched) verified on their real bodies; the effective excluded_node_types of every PSyData-family transformation (class attribute resolved through the MRO of the real class ASTs on every run) contains Return. The region walk of RegionTrans.validate is covered only by a bounded run-time contract on the real transformations. Known findings (open): ExtractTrans family does not exclude Return; EXIT/CYCLE in a code block leave a region.",
+  "Assumed: options.get / tree and name accessors as hooks. NOT under contract: RegionTrans.validate itself, PSyDataNode.lower_to_language_level (PreStart/PostEnd sequence and nesting).",
+  TECH + "; class-attribute resolution over the extracted hierarchy; bounded run-time contract for the region walk"),
 }
 
 NA = {
